@@ -12,6 +12,7 @@ LEVEL_TEXT = ("Lean 4 theorems, for arbitrary list lengths and values over any o
 LEVEL_NOTE = ("Trusted: Lean kernel (axioms propext/Classical.choice/Quot.sound only), the Python correspondence harness, exact-arithmetic model vs IEEE doubles "
               "(compared at rel 1e-9). The fake round-1 result object passed to calculate_human_consumption_for_min_needs is built by the harness.")
 TECHNIQUE = "Lean 4 proof by induction over lists + differential correspondence with the real helpers"
+DRIVER = "driver_handoff"
 LEAN_MODULES = ["AllfedModel.Props.C18"]
 OBLIGATIONS = [
     "Allfed.C18.fillMonth_sum", "Allfed.C18.fillMonth_le", "Allfed.C18.fillMonth_nonneg",
